@@ -88,6 +88,12 @@ package dsl
 //@   property C10
 //@   requires value != nil
 //@   ensures result1 == nil ==> result0 != nil
+// Two spellings of one argument list: `args: X` for any single type X (a name, or an expanded !vector/!map/... node)
+// means `args: [X]`; a sequence lists the arguments one by one.
+//@   property C13
+//@   invariant 1: len(simpleType.TypeArguments) == rangeindex + 1
+//@   iteration 0: k.Value == "args" && v.Kind != yaml.SequenceNode ==> len(simpleType.TypeArguments) == 1
+//@   iteration 0: k.Value == "args" && v.Kind == yaml.SequenceNode ==> len(simpleType.TypeArguments) == len(v.Content)
 // participle never leaves a nil entry in a repeated capture (library fact, trusted)
 //@ elems-nonnil *dsl/parser.Type
 //@ func convertType
